@@ -613,6 +613,14 @@ impl<Store: StorageData> DbImpl<Store> {
             self.aliases.remove_key(&mut self.storage, &old_alias)?;
         }
 
+        if let Some(old_id) = self.aliases.value(&self.storage, alias)? {
+            self.undo_stack.push(Command::InsertAlias {
+                id: old_id,
+                alias: alias.clone(),
+            });
+            self.aliases.remove_key(&mut self.storage, alias)?;
+        }
+
         self.undo_stack.push(Command::RemoveAlias {
             alias: alias.clone(),
         });
